@@ -1,6 +1,7 @@
 (* Extract/ExELIM.v -- extraction for the pruning family (C03, C05, C06, C11) *)
 From Coq Require Import Extraction ExtrOcamlBasic ExtrOcamlString.
 From AT Require Import Num Vec Aff Farkas FM Equiv PTree Cells Abs Reduce Paths PolyGen Cache Elim CPrune EquivThin.
+(* x-acprune begin *) From AT Require Import ArenaCompose ACPrune. (* x-acprune end *)
 Extraction Blacklist List String Int.
 Extraction "model_elim.ml"
   qc_of_float qz qfrac qleb qltb qeqb Qcplus Qcmult Qcopp Qcminus Qcdiv
@@ -14,4 +15,5 @@ Extraction "model_elim.ml"
   dabs preorder node_rows in_rowsb contains_tol tighten relax empty_cert thin_cert cache_check constrs_of
   cabs elim oracle_of_logs ctree_eqb erase cev k0
   compose_prune cprune oracle_by_rows ctree_eqb_shape
+  (* x-acprune begin *) acompose_prune acp_list acp_at terminal_keys st_eqb next_key (* x-acprune end *)
   tree_equiv_skip thin_skip.
